@@ -105,3 +105,65 @@ theorem runBatches_spec : ∀ (bs : List (List (Idx × Idx))) (g : SGrid), g.sto
       rw [← List.append_assoc]; exact h2.2
 
 end Amisc
+
+namespace Amisc
+
+/-- the keys an activation batch needs: every coordinate of every index of the batch, at that index's fidelity -/
+def needed (kpl : Nat) (batch : List (Idx × Idx)) (key : EvalKey) : Prop :=
+  ∃ ab ∈ batch, key.1 = ab.1 ∧ key.2 ∈ prodIdx (knots kpl ab.2)
+
+theorem sgRefine_kpl (g : SGrid) (a b : Idx) : (sgRefine g a b).1.kpl = g.kpl := rfl
+
+theorem mem_sgRefine_new (g : SGrid) (a b : Idx) (c : Coord) :
+    c ∈ (sgRefine g a b).2 ↔ c ∈ prodIdx (knots g.kpl b) ∧ (a, c) ∉ g.stored := by
+  unfold sgRefine
+  simp [List.mem_filter]
+
+/-- what the design loop evaluates: exactly the needed keys that are not stored yet (each once) -/
+theorem mem_designBatch_evals : ∀ (batch : List (Idx × Idx)) (g : SGrid) (acc : List (Idx × List Coord)) (key : EvalKey),
+    key ∈ batchEvals (designBatch g batch acc).2 ↔
+      key ∈ batchEvals acc ∨ (needed g.kpl batch key ∧ key ∉ g.stored)
+  | [], g, acc, key => by simp [designBatch, needed]
+  | (a, b) :: rest, g, acc, key => by
+      unfold designBatch
+      simp only []
+      rw [mem_designBatch_evals rest (sgRefine g a b).1 _ key, batchEvals_append, sgRefine_stored, sgRefine_kpl]
+      have hearlier : (acc.flatMap fun x => x.2.map fun c => (x.1, c)) = batchEvals acc := rfl
+      simp only [List.mem_append, List.mem_map, List.mem_filter, Bool.not_eq_eq_eq_not, Bool.not_true,
+        decide_eq_false_iff_not, hearlier, mem_sgRefine_new]
+      constructor
+      · rintro ((h | ⟨c, ⟨⟨hc1, hc2⟩, _⟩, rfl⟩) | ⟨⟨ab, hab, h1, h2⟩, h3⟩)
+        · exact Or.inl h
+        · exact Or.inr ⟨⟨(a, b), by simp, rfl, hc1⟩, hc2⟩
+        · exact Or.inr ⟨⟨ab, by simp [hab], h1, h2⟩, h3⟩
+      · rintro (h | ⟨⟨ab, hab, h1, h2⟩, h3⟩)
+        · exact Or.inl (Or.inl h)
+        · rcases List.mem_cons.mp hab with h | h
+          · subst h
+            by_cases hk : key ∈ batchEvals acc
+            · exact Or.inl (Or.inl hk)
+            · refine Or.inl (Or.inr ⟨key.2, ⟨⟨h2, ?_⟩, ?_⟩, ?_⟩)
+              · simp only [] at h1; rw [← h1]; exact h3
+              · simp only [] at h1; rw [← h1]; exact hk
+              · simp only [] at h1; rw [← h1]
+          · exact Or.inr ⟨⟨ab, h, h1, h2⟩, h3⟩
+
+/-- the store after an activation = what was stored before ∪ what the batch needs -/
+theorem mem_stored_activateBatch (g : SGrid) (batch : List (Idx × Idx)) (key : EvalKey) :
+    key ∈ (activateBatch g batch).1.stored ↔ key ∈ g.stored ∨ needed g.kpl batch key := by
+  have hst := (designBatch_spec batch g [] (by simp [batchEvals]) (by simp [batchEvals])).2.2
+  unfold activateBatch
+  simp only [List.mem_append, hst]
+  rw [mem_designBatch_evals batch g [] key]
+  simp only [batchEvals, List.flatMap_nil, List.not_mem_nil, false_or]
+  constructor
+  · rintro (h | ⟨h, _⟩)
+    · exact Or.inl h
+    · exact Or.inr h
+  · rintro (h | h)
+    · exact Or.inl h
+    · by_cases hs : key ∈ g.stored
+      · exact Or.inl hs
+      · exact Or.inr ⟨h, hs⟩
+
+end Amisc
